@@ -138,6 +138,11 @@ def gen_json(tier, rng):
 def run(tier, rng, C):
     cases = gen(tier, rng) + gen_json(tier, rng)
     v, stats = C.differential("C14", cases, nontrivial=lambda l, o: not o.startswith("Extension x ") and o != "err")
+    from gen import c05 as _c05
+    bad, nbig = C.invariance("C14", [p for p in _c05.big_pairs(tier, rng, ["code", "introspect", "devauth"]) if " 400 " in p[0]], "an error document with an unknown member of more than 1 MiB is reported like the same document without it")
+    v += bad
+    stats["large_document_pairs"] = nbig
+    stats["evaluations"] = stats.get("evaluations", 0) + nbig
     # the same library calls through the crate's own HTTP clients (reqwest, reqwest blocking, curl, ureq) against a scripted
     # loopback server: the outcome must be the one an in-memory client given the same reply produces (gen/same.py)
     from gen import same as SAME
